@@ -157,6 +157,21 @@ class SurveyScenario(BaseScenario):
                         raise Violation("C20", "edit_lost", f"{where}: partner.{key} = {compare._short(got)} expected {compare._short(val)}", {**discr, "side": "partner", "attr": key})
         del rx, px, got_px, got_rx
 
+    def stored_all(self, st, ws, other):
+        """(pair index, side) -> stored Metadata of every tracked survey entity (independent reader)."""
+        out = {}
+        raws = {}
+        for i, pr in enumerate(st["pairs"]):
+            wsx = ws if pr["ws"] == "A" else other
+            if wsx is None or not wsx._geoh5:  # pylint: disable=protected-access
+                continue
+            if pr["ws"] not in raws:
+                raws[pr["ws"]] = rawgeoh5.read(wsx.geoh5)
+            for side in ("rx", "px"):
+                if pr.get(side) is not None:
+                    out[(i, side)] = json.dumps(self.stored_meta(raws[pr["ws"]], pr[side]), sort_keys=True)
+        return out
+
     @staticmethod
     def stored_meta(raw, uid):
         node = raw["flat"]["Objects"].get(ustr(uid))
@@ -202,11 +217,23 @@ class SurveyScenario(BaseScenario):
                     executed.append(op)
                     kind = op["k"]
                     r = random.Random(H(op["sub"], "args"))
+                    stored_before = self.stored_all(st, ws, other) if kind in ("edit", "components", "link") else None
+                    n_pairs_before = len(st["pairs"])
+                    st["last_pair"] = None
                     sim.begin_op(op["sub"])
                     try:
                         res = getattr(self, "do_" + kind)(sim, {"A": ws, "B": other}, st, cfg, r, path)
                     finally:
                         sim.end_op()
+                    if stored_before is not None and st.get("last_pair") is not None:
+                        # C09: an edit through one pair leaves the stored metadata of every OTHER pair untouched
+                        sim.oracle("other_pairs_untouched")
+                        stored_after = self.stored_all(st, ws if not isinstance(res, tuple) else res[0], other)
+                        for key, meta in stored_before.items():
+                            if key[0] != st["last_pair"] and key[0] < n_pairs_before and stored_after.get(key) != meta:
+                                raise Violation("C09", "collateral_write", f"{kind} through pair {st['last_pair']} changed the stored metadata of the {key[1]} entity of pair {key[0]}: "
+                                                f"{compare._short(meta, 160)} -> {compare._short(stored_after.get(key), 160)}",
+                                                {"op": "survey_" + kind, "node": "Objects", "subs": "Metadata"})
                     if isinstance(res, tuple):
                         ws, outcome = res
                     else:
@@ -271,6 +298,7 @@ class SurveyScenario(BaseScenario):
         pr = self._pick(st, r)
         if pr["px"] is None or pr["rx"] is None:
             return "skipped"
+        st["last_pair"] = st["pairs"].index(pr)
         ws = wss[pr["ws"]]
         rx, px = self.get(ws, pr["rx"]), self.get(ws, pr["px"])
         side = r.choice(["rx", "partner"]) if pr["linked"] else cfg["link_from"]
@@ -304,6 +332,7 @@ class SurveyScenario(BaseScenario):
     def do_edit(self, sim, wss, st, cfg, r, path):
         family = PAIRS[cfg["pair"]][4]
         pr = self._pick(st, r)
+        st["last_pair"] = st["pairs"].index(pr)
         ws = wss[pr["ws"]]
         side = "rx" if (not pr["linked"] or pr["px"] is None or r.random() < 0.5) else "partner"
         ent = self.get(ws, pr["rx"] if side == "rx" else pr["px"])
@@ -354,6 +383,7 @@ class SurveyScenario(BaseScenario):
         if PAIRS[cfg["pair"]][4] == "dc":
             return "skipped"
         pr = self._pick(st, r)
+        st["last_pair"] = st["pairs"].index(pr)
         ws = wss[pr["ws"]]
         rx = self.get(ws, pr["rx"])
         channels = pr["expect"].get("channels")
